@@ -277,6 +277,11 @@ def write_driver_all():
             text = text.replace("open Lean\n", f"import OQ.Generated.TranslatedDriver{m.group(1)}\nopen Lean\n", 1)
             text += f'  | "TR{m.group(1)}" => OQ.TR{m.group(1)}.Driver.handle op j\n'
     # --- T3 end
+    # --- T5: glue of the translated runner CLASSES (harness/tables_runners.py writes OQ/Generated/TranslatedRunnersDriver.lean)
+    if os.path.exists(os.path.join(LEAN, "OQ", "Generated", "TranslatedRunnersDriver.lean")):
+        text = text.replace("open Lean\n", "import OQ.Generated.TranslatedRunnersDriver\nopen Lean\n", 1)
+        text += '  | "TRR" => OQ.TRR.Driver.handle op j\n'
+    # --- T5 end
     text += '  | _ => .error s!"unknown property {prop}"\n\nend OQ.Driver\n'
     path = os.path.join(d, "All.lean")
     if not os.path.exists(path) or open(path).read() != text:
